@@ -191,6 +191,17 @@ CLAIMED["C16"] = dict(
          "from_npz on real files reproduces energies, data, rank, both transformations (incl. conj, swap_axes, transpose) and comment.",
     note=TB + "; np.savez / np.load value round trip; the property's 'element-wise' does not literally hold for K__Result.__add__ and __truediv__ (stated, see DESIGN 5/C16)")
 
+CLAIMED["C26"] = dict(
+    text="SystemInterpolator.__init__ and interpolate (real text, real numpy, SYMBOLIC matrix entries, centres and alpha) for four R-set "
+         "configurations (partial overlap, disjoint, equal in different order, nested): the new R list is the duplicate-free union used by "
+         "both stored systems, every old X(R) sits at the slot of its own R and every other slot is zero (so all Fourier sums are unchanged), "
+         "one-sided matrix keys are removed from both, the caller's systems are untouched; interpolate(alpha) is (1-alpha)A + alpha B for "
+         "every matrix entry and centre with symbolic alpha, and reproduces A / B exactly at 0 / 1; point-group choice; SOC variant "
+         "interpolates up/down with the same alpha. Per shape, for all complex data and all alpha. Bounded stand-in: real random systems "
+         "on different R-sets, H(k) at the endpoints and the midpoint. Recorded observation: the interpolated system keeps system0's "
+         "R-vector shifts for every alpha.",
+    note=TB + "; copy.deepcopy copies; set() iteration order arbitrary (the obligations do not depend on it)")
+
 NOT_APPLICABLE = {
     "C20": "real-space symmetrisation is a data-dependent floating-point orbit search over irrep objects; its postcondition is only statable through an eigen-solver, no discrete/algebraic kernel is left once externals are abstracted (DESIGN section 7)",
     "C21": "rotation matrices are produced inside sympy (polynomial expansion + evalf); orthogonality/composition live in that CAS computation, outside any contract this engine can generate VCs for (DESIGN section 7)",
